@@ -39,6 +39,7 @@ FIXES = {  # subject prefix -> properties whose check must fire when the fix is 
     "fix: cycle reporting": ["C07"],
     "fix: delayed attribute": ["C15"],
     "fix: Generator.choice": ["C28"],
+    "fix: a broadcast join": ["C39"],
 }
 
 
